@@ -16,6 +16,9 @@ BUILTIN_TREE = {   # a slice of CPython's hierarchy used for declared / raised c
 def gen_sig(rnd: random.Random, maxp=4, allow_posonly=True):
     n = rnd.randint(0, maxp)
     names = NAMES[:n]
+    if n and rnd.random() < .15:
+        # parameter names that are also names of dict methods / attributes of container classes: the `_` container must give the argument
+        names = list(names); names[rnd.randrange(n)] = rnd.choice(['items', 'data', 'keys', 'get', 'update'])
     posonly = rnd.randint(0, n) if (allow_posonly and rnd.random() < .3) else 0
     star = rnd.random() < .4
     dstar = rnd.random() < .4
